@@ -8,7 +8,8 @@ def tonl_d(ann):
     m = ["// @testonly"] if ann["meth"] else []
     ls = ["package d", "", "type (", "\t// TT is a helper."] + ["\t" + x for x in t] + ["\tTT struct{ X int }", "\tTG struct{ X int }", ")", "",
           "// TT2 is another helper."] + t + \
-         ["type TT2 struct{ X int }", "", "type S struct{}", "", "// TF is a helper."] + f + \
+         ["type TT2 struct{ X int }", "", "type S struct{}", "", "// tfLower is an unexported helper, declared before the exported one."] + f + \
+         ["func tfLower(n int) int { return n }", "", "// TF is a helper."] + f + \
          ["func TF(n int) int { return n }", "", "// TM is a helper."] + m + \
          ["func (s S) TM(n int) int { return n }", "", "func PF(n int) int { return n }", "",
           "func (s S) PM(n int) int { return n }", "", "// hid is unexported; Default hands out a value of it.", "type hid struct{}", "",
@@ -81,6 +82,8 @@ def build_tonl(sc, sid):
                 "callFlit": "_ = %sTF(%sTT{X: %d}.X)" % (q, q, n),
                 "callPF": "_ = %sPF(%d)" % (q, n),
                 "callPM": "_ = s%d.PM(%d)" % (n, n),
+                "callLower": "_ = tfLower(%d)" % n,
+                "callMpkgvar": "_ = d.TM(%d)" % n,
                 "shadow": "_ = TF(%d)" % n,
                 "litTT": "_ = %s{X: %d}" % (TT, n),
                 "elidedTT": "_ = []%s{{X: %d}}" % (TT, n),
@@ -91,6 +94,8 @@ def build_tonl(sc, sid):
             }[u]
             if u == "shadow":
                 pre = ["TF := func(n int) int { return n }"]
+            if u == "callMpkgvar":
+                pre = ["d := d.S{}"]
             if u in ("varTT", "varPtrTT"):
                 post = ["_ = v%d" % n]
             for l in pre:
